@@ -391,13 +391,12 @@ impl Responder {
             let status = carrier.send_transaction(&tracker.penalty_tx);
             if let ConfirmationStatus::Rejected(_) = status {
                 rejected.push(uuid);
-            } else {
-                // DISCUSS: What if the tower was down for some time and was later force updated while this penalty got on-chain?
-                // Sending it will yield `ConfirmationStatus::IrrevocablyResolved` which would panic here.
-                // We might want to replace `ConfirmationStatus::IrrevocablyResolved` variant with
-                // `ConfirmationStatus::ConfirmedIn(height - IRREVOCABLY_RESOLVED)
+            } else if status.accepted() {
                 dbm.update_tracker_status(uuid, &status).unwrap();
             }
+            // Otherwise (`ConfirmationStatus::IrrevocablyResolved`) the penalty is already on chain, most likely in a block
+            // we have not processed yet (bitcoind can be ahead of us). The tracker is left as is: it will be flagged as
+            // confirmed once that block is connected.
         }
 
         (!rejected.is_empty()).then_some(rejected)
